@@ -42,7 +42,7 @@ def run_action_open(cfg: OpenActionConfig) -> int:
         # every ZID is targetable.
         zid_word = word.strip("[]")
         is_targetable_zid = zdt.is_zid(zid_word) and (
-            found_primary_zid or is_zoq_file or i == 0
+            found_primary_zid or is_zoq_file or i == 0 or zid_word != word
         )
         is_id_link = word.find("[#") >= 0 and word.find("]") >= 0
         is_rid_link = word.find("[@") >= 0 and word.find("]") >= 0
@@ -59,12 +59,14 @@ def run_action_open(cfg: OpenActionConfig) -> int:
             all_targets_in_line.append(word)
         elif is_targetable_zid:
             all_targets_in_line.append(zid_word)
-        elif (
-            not found_primary_zid
-            and not _is_prefix_symbol(word)
-            and not _is_priority(word)
-            and not zdt.is_short_date_spec(word)
-            and not zdt.is_zid(word)
+
+        # Only a note's prefix (i.e. its type symbol, priority, and modify
+        # date) can precede its primary ZID, so any ZID that follows some
+        # other word (or the primary ZID itself) is NOT the primary ZID.
+        if not (
+            _is_prefix_symbol(word)
+            or _is_priority(word)
+            or zdt.is_short_date_spec(word)
         ):
             found_primary_zid = True
 
